@@ -56,9 +56,11 @@ func (c *WhipClient) Init(username string, perms []string) {
 	c.permissions = perms
 }
 
+// Permissions returns the client's permissions.  These are set by Init
+// before the client becomes visible, and never change afterwards.  This
+// must not take c.mu, since it is called with the group locked, while
+// Close calls into the group with c.mu taken.
 func (c *WhipClient) Permissions() []string {
-	c.mu.Lock()
-	defer c.mu.Unlock()
 	return c.permissions
 }
 
